@@ -67,9 +67,9 @@ UtcYear(t) == CivilFromDays(WDiv(t, 86400))[1]
 \* within one of y, the latest rule instant at or before t is among them (a rule fires within 8
 \* days of its own year).  `edge` says that the first element is the earliest of the twelve, i.e.
 \* its predecessor lies outside the context.  (Time order across years is part of WellFormed.)
-RECURSIVE RuleYears(_, _, _, _, _, _)
-RuleYears(Z, j0, ym, i, cum, wd) ==
-  IF i = 6 THEN <<>>
+RECURSIVE RuleYears(_, _, _, _, _, _, _)
+RuleYears(Z, j0, ym, i, cum, wd, stop) ==      \* years number i .. stop-1 counted from the year whose Jan 1 is day j0
+  IF i = stop THEN <<>>
   ELSE LET leap == IsLeapIdx((ym + i) % 400)
            len  == IF leap THEN 366 ELSE 365
            base == WMulSmall(j0 \oplus W(cum), 86400)
@@ -77,7 +77,11 @@ RuleYears(Z, j0, ym, i, cum, wd) ==
            st   == [at |-> base \oplus W(o[1]), T |-> Z.rule.dstT]
            en   == [at |-> base \oplus W(o[2]), T |-> Z.rule.stdT]
        IN  (IF o[1] <= o[2] THEN <<st, en>> ELSE <<en, st>>)
-             \o RuleYears(Z, j0, ym, i + 1, cum + len, (wd + len) % 7)
+             \o RuleYears(Z, j0, ym, i + 1, cum + len, (wd + len) % 7, stop)
+\* the instants of two consecutive rule years starting with the year whose January 1st is day j0
+RuleYears2(Z, j0, ym, wd) ==
+  RuleYears(Z, j0, ym, 0, 0, wd, 2)
+LocalCiv0(t, off) == FromSeconds(t \oplus W(off))
 RECURSIVE CountLE(_, _, _)          \* number of leading elements of the sorted sequence with at <= t
 CountLE(sq, t, i) == IF i > Len(sq) \/ t \prec sq[i].at THEN i - 1 ELSE CountLE(sq, t, i + 1)
 NoCtx == [seq |-> <<>>, edge |-> FALSE]
@@ -85,7 +89,7 @@ RuleCtx(Z, y) ==
   IF Z.rule.kind # "dst" THEN NoCtx
   ELSE LET y0 == y \ominus W(3)
            j0 == DaysFromCivil(y0, 1, 1)
-           all == RuleYears(Z, j0, WMod(y0, 400), 0, 0, (Weekday(j0) + 1) % 7)
+           all == RuleYears(Z, j0, WMod(y0, 400), 0, 0, (Weekday(j0) + 1) % 7, 6)
            k == CountLE(all, LastAt(Z), 1)
        IN  [seq |-> SubSeq(all, k + 1, Len(all)), edge |-> k = 0]
 
